@@ -138,6 +138,23 @@ func (c *connector) Driver() driver.Driver                        { return fdriv
 
 type fdriver struct{}
 
+// sessions addressed by DSN: the seata-fence-mysql proxy driver opens its target through
+// DriverContext.OpenConnector(dsn)
+var (
+	dsnMu       sync.Mutex
+	dsnSessions = map[string]*Session{}
+)
+
+func (fdriver) OpenConnector(dsn string) (driver.Connector, error) {
+	dsnMu.Lock()
+	defer dsnMu.Unlock()
+	s, ok := dsnSessions[dsn]
+	if !ok {
+		return nil, errors.New("fakedrv: unknown dsn " + dsn)
+	}
+	return &connector{sess: s}, nil
+}
+
 func (fdriver) Open(string) (driver.Conn, error) {
 	return nil, errors.New("fakedrv: use the connector")
 }
@@ -149,8 +166,9 @@ type txn struct {
 }
 
 type conn struct {
-	sess *Session
-	tx   *txn
+	sess   *Session
+	tx     *txn
+	locked []fkey
 }
 
 type stmtKind int
@@ -236,7 +254,15 @@ func (c *conn) Prepare(q string) (driver.Stmt, error) {
 	return &stmt{c: c, p: p, nin: strings.Count(q, "?")}, nil
 }
 
-func (c *conn) Close() error { return nil }
+// Close: like a MySQL connection that goes away, an open transaction is rolled back
+func (c *conn) Close() error {
+	st := c.sess.Store
+	st.mu.Lock()
+	defer st.mu.Unlock()
+	c.tx = nil
+	c.release()
+	return nil
+}
 
 func (c *conn) Begin() (driver.Tx, error) { return c.BeginTx(context.Background(), driver.TxOptions{}) }
 
@@ -254,11 +280,12 @@ func (c *conn) BeginTx(context.Context, driver.TxOptions) (driver.Tx, error) {
 
 func (c *conn) release() {
 	st := c.sess.Store
-	for k, o := range st.owner {
-		if o == c.sess.ID {
+	for _, k := range c.locked {
+		if o, ok := st.owner[k]; ok && o == c.sess.ID {
 			delete(st.owner, k)
 		}
 	}
+	c.locked = nil
 }
 
 func (c *conn) Commit() error {
@@ -329,6 +356,7 @@ func (c *conn) lock(k fkey) error {
 	}
 	if c.tx != nil {
 		st.owner[k] = c.sess.ID
+		c.locked = append(c.locked, k)
 	}
 	return nil
 }
